@@ -18,12 +18,13 @@ pub fn check(tier: Tier) -> Check {
         Part::new("C03/eof", json!({"max_len": tier.pick(9, 12)}), 0, tier.pick(50, 600)),
         Part::new("C03/long", json!({"big": tier == Tier::Thorough, "narrow": tier == Tier::Quick}), 0, tier.pick(50, 600)),
         Part::new("C03/long", json!({"huge": true, "pairs": tier == Tier::Thorough}), 0, tier.pick(50, 300)),
+        Part::new("C03/aligned", json!({"shifts": tier.pick(48, 80), "wide": tier.pick(1100, 2200), "all_cuts": tier == Tier::Thorough}), 0, tier.pick(50, 900)),
     ];
     Check {
         also_rel: true,
         property: "C03",
         level: "model_checking",
-        rule: "(S1) every 2- and 3-packet sequence over {PINGRESP, short PUBACK, SUBACK, inbound PUBLISH QoS 0/1 with a small payload} up to the stated total length x all 2^(n-1) compositions of the byte stream into reads x {all chunks immediately available, Pending between chunks}; (S1e) every 1-2-packet stream up to a small total length cut short after every prefix by end-of-stream / read error, under every composition of the prefix; (S2) PUBLISH packets of 126..131, 510..516, 1022..1028, 1534..1540, 2046..2052, 4096, 16383..16390 bytes (quick: 127..129, 511..514, 1023..1026, 1536, 2047..2050, 16384..16386; thorough also 70000; a 2097160-byte packet (four-byte remaining length) with every single cut (thorough: every pair of cuts) near the interesting offsets) preceded by 0-2 small packets x {every single cut, every pair of cuts within +-3 of packet boundaries and multiples of 512, every uniform chunk size 1..=40 and 511..513, 1023..1025} x both reader modes; run in the overflow-checked and the wrapping-arithmetic build; oracle: reference framing at every quiescent point, no unread visible bytes at quiescence, no end-of-stream before the transport's, no zero-length read; non-trivial = a packet was split across reads".into(),
+        rule: "(S1) every 2- and 3-packet sequence over {PINGRESP, short PUBACK, SUBACK, inbound PUBLISH QoS 0/1 with a small payload} up to the stated total length x all 2^(n-1) compositions of the byte stream into reads x {all chunks immediately available, Pending between chunks}; (S1e) every 1-2-packet stream up to a small total length cut short after every prefix by end-of-stream / read error, under every composition of the prefix; (S2) PUBLISH packets of 126..131, 510..516, 1022..1028, 1534..1540, 2046..2052, 4096, 16383..16390 bytes (quick: 127..129, 511..514, 1023..1026, 1536, 2047..2050, 16384..16386; thorough also 70000; a 2097160-byte packet (four-byte remaining length) with every single cut (thorough: every pair of cuts) near the interesting offsets) preceded by 0-2 small packets x {every single cut, every pair of cuts within +-3 of packet boundaries and multiples of 512, every uniform chunk size 1..=40 and 511..513, 1023..1025} x both reader modes; (S3) a stream of seven packets (a lead-in PUBLISH whose size takes every value in a window of 48 (thorough: 80) consecutive sizes - and, for the deliveries in one read or in chunks of >= 255 bytes, in a window of 1100 (thorough: 2200) -, then PUBLISH packets of about 700, 200, 118, 20, 30 and 620 bytes), so that every later packet boundary - and with it the start of a fixed header and of a multi-byte remaining length - falls on every alignment against the 512-byte read step and the 1024-byte allocation, delivered in one read, under every single cut near packet boundaries and multiples of 256 (thorough: every single cut) and in uniform chunks of 1, 2, 3, 5, 7, 64, 255, 256, 257, 511, 512, 513, 1019, 1024 bytes, both reader modes; run in the overflow-checked and the wrapping-arithmetic build; oracle: reference framing at every quiescent point, no unread visible bytes at quiescence, no end-of-stream before the transport's, no zero-length read; non-trivial = a packet was split across reads".into(),
         assumptions: vec!["packets are well-formed (malformed input is C04)".into()],
         parts,
     }
@@ -202,6 +203,76 @@ pub fn scenario(name: &str, params: &Value) -> Scenario {
                 deliver_cut(&mut sys, &bytes, &cuts, &packets, pending_between);
             }
             sys.apply(if read_error { Ev::ReadErr } else { Ev::Eof });
+            sys.finish();
+            sys.m.hits.push("packet-split");
+            sys.report(ex, &["packet-split"]);
+        });
+    }
+    if name == "C03/aligned" {
+        let shifts = params["shifts"].as_u64().unwrap_or(48) as usize;
+        let all_cuts = params["all_cuts"].as_bool().unwrap_or(false);
+        let wide = params["wide"].as_u64().unwrap_or(0) as usize;
+        return Box::new(move |chz, ex| {
+            // the first `shifts` lead-in sizes get every family of cuts; the sizes beyond (up to
+            // `wide`) only the deliveries in large reads, which is where a read can fill the
+            // receive allocation to its last byte
+            let shift = chz.choose(wide.max(shifts));
+            let mut sys = Sys::new("C03", &name, chz);
+            sys.params = params.clone();
+            let Some(sid) = setup(&mut sys) else {
+                return sys.report(ex, &[]);
+            };
+            let mk = |qos: u8, pid: u16, plen: usize, tag: u8| SPacket::Publish {
+                dup: false,
+                qos,
+                retain: false,
+                topic: "in/t".into(),
+                pid: if qos > 0 { Some(pid) } else { None },
+                props: vec![Prop::var(P_SUBSCRIPTION_ID, sid)],
+                payload: (0..plen).map(|i| (i as u8).wrapping_mul(7).wrapping_add(tag)).collect(),
+            };
+            let seq = vec![
+                mk(0, 0, shift, 1),
+                mk(1, 11, 686, 2),
+                mk(1, 12, 186, 3),
+                mk(2, 13, 104, 4),
+                mk(1, 14, 8, 5),
+                mk(0, 0, 18, 6),
+                mk(1, 15, 606, 7),
+            ];
+            let mut bytes = vec![];
+            let mut packets = vec![];
+            for p in &seq {
+                bytes.extend(p.encode());
+                packets.push((bytes.len(), p.clone()));
+            }
+            let n = bytes.len();
+            let pending_between = chz.choose(2) == 1;
+            let fam = if shift < shifts { chz.choose(3) } else { [0usize, 2][chz.choose(2)] };
+            let cuts: Vec<usize> = match fam {
+                0 => vec![],
+                1 => {
+                    let anchors: Vec<usize> = packets
+                        .iter()
+                        .map(|(e, _)| *e)
+                        .chain((1..=n / 256).map(|k| k * 256))
+                        .collect();
+                    let pos: Vec<usize> = (1..n)
+                        .filter(|&off| all_cuts || anchors.iter().any(|&a| off + 6 >= a && off <= a + 6))
+                        .collect();
+                    vec![pos[chz.choose(pos.len())]]
+                }
+                _ => {
+                    let chunks = [1usize, 2, 3, 5, 7, 64, 255, 256, 257, 511, 512, 513, 1019, 1024];
+                    let c = if shift < shifts {
+                        chunks[chz.choose(chunks.len())]
+                    } else {
+                        chunks[6 + chz.choose(chunks.len() - 6)]
+                    };
+                    (1..n).step_by(c).collect()
+                }
+            };
+            deliver_cut(&mut sys, &bytes, &cuts, &packets, pending_between);
             sys.finish();
             sys.m.hits.push("packet-split");
             sys.report(ex, &["packet-split"]);
